@@ -208,7 +208,8 @@ class MemFilestore(VirtualFilestore):
 
     @staticmethod
     def k(p) -> str:
-        return Path(p).as_posix()
+        # (a file system without symbolic links: '..' components are resolved lexically)
+        return os.path.normpath(Path(p).as_posix())
 
     # -- helpers used by the harness -------------------------------------------------------
     def put(self, p, data: bytes) -> None:
@@ -359,6 +360,11 @@ class RecFilestore(VirtualFilestore):
         self.fault: Callable[[str, tuple, int], BaseException | None] | None = None
         self.counts: dict[str, int] = {}
         self.in_call = 0
+
+    def __len__(self) -> int:
+        # a container-like filestore object: as many items as the in-memory store holds files (0 for a receiver's store before its first
+        # transfer, so the object is falsy); always 1 for the library's own filestore class
+        return len(self.inner.files) if isinstance(self.inner, MemFilestore) else 1
 
     def _do(self, op: str, *args, **kw):
         n = self.counts.get(op, 0)
